@@ -341,7 +341,7 @@ fn run_check(id: &str, args: &Args) -> i32 {
                 "C13-estimator",
                 args,
                 agg,
-                "every sequence (length <= len) over {4 keys chosen to collide / not collide per width, reset, clear} for each counter width, plus 40-fold saturation runs over 71 hashes; states = distinct counter arrays reached; non-trivial = some counter non-zero / an aging reset happened",
+                "every sequence (length <= len) over {4 keys chosen to collide / not collide per width, reset, clear} for each counter width, plus 40-fold saturation runs over 71 hashes, plus hot-key workloads on the estimator (one key recorded far beyond the counter limit within a window, a cold key every 5th / 19th access: the window position advances on every access, the reset falls on every num_counters-th one); states = distinct counter arrays reached; non-trivial = some counter non-zero / an aging reset happened",
                 t0,
                 &[],
             );
@@ -366,7 +366,7 @@ fn run_check(id: &str, args: &Args) -> i32 {
                 "C07-policy",
                 args,
                 agg,
-                "real LFUPolicy::add (driven without its worker thread): residents n in 0..=7, cost vectors {1,3}^n and (n<=4 quick / n<=6 thorough) {0,2}^n and {-1,2}^n (residents charged nothing or less among the candidates), popularity vectors {0,1,3}^n built by real increments (all for n<=5 quick / n<=6 thorough, structured subsets above), max_cost in {sum-1 (over budget), sum, sum+1}, incoming cost {0,1,3,5}, incoming hits 0..=4; every sampling round is observed (cfg-guarded observer) and checked against the actual estimates read from the real sketch; non-trivial = at least one sampling round ran",
+                "real LFUPolicy::add (driven without its worker thread): residents n in 0..=7, cost vectors {1,3}^n and (n<=4 quick / n<=6 thorough) {0,2}^n and {-1,2}^n (residents charged nothing or less among the candidates), popularity vectors {0,1,3}^n built by real increments (all for n<=5 quick / n<=6 thorough, structured subsets above), max_cost in {sum-1 (over budget), sum, sum+1}, incoming cost {0,1,3,5}, incoming hits 0..=4; every sampling round is observed (cfg-guarded observer) and checked against the actual estimates read from the real sketch; plus two admissions in a row on one policy (n in 1..=7 unit-cost residents, the first contest won or lost, 1..n residents leaving and fresh ones arriving in between): the candidates of the second contest are current residents; non-trivial = at least one sampling round ran",
                 t0,
                 &["popularity estimates are read from the real sketch (1024 counters, no collisions among the <=8 keys used), so estimator collisions cannot cause false alarms", "phantom re-samples of an already evicted candidate are tolerated (they evict nothing)"],
             );
@@ -422,7 +422,7 @@ fn run_check(id: &str, args: &Args) -> i32 {
         "C20" => run_both_flavours("C20", checks::c20, args, t0, 5),
         "C18" => {
             let agg = comp::run_cases("C18", "c18", comp::c18_cases(&args.tier), comp::c18_case, args.threads);
-            let a = comp_outcome("C18-keybuilders", args, agg, "TransparentKeyBuilder over ALL values of u8, i8, u16, i16, bool and boundary sets (0, +-1, MIN, MAX, 2^j, 2^j+-1) of u32, i32, u64, i64, usize, isize: build_key == (k as u64, 0), stable across calls and instances, injective; DefaultKeyBuilder<String>: 4 instances x 1000 strings, String vs &str vs repeated calls", t0, &[]);
+            let a = comp_outcome("C18-keybuilders", args, agg, "TransparentKeyBuilder over ALL values of u8, i8, u16, i16, bool and boundary sets (0, +-1, MIN, MAX, 2^j, 2^j+-1) of u32, i32, u64, i64, usize, isize: build_key == (k as u64, 0), stable across calls and instances, injective; DefaultKeyBuilder<String>: 4 instances x 1000 strings, String vs &str vs repeated calls; one builder shared by two threads from its first use, every schedule of their first build_key calls at preemption bound 2", t0, &[]);
             let b = spec_outcome(checks::c18(&args.tier, model::Flavor::Sync), args, t0, args.secs);
             finish(merge("C18", vec![a, b], t0))
         }
